@@ -46,8 +46,7 @@ CLAIMED.update({
             "the FEN clock is carried into the first node; that PushMove reports a draw iff exact repetition count >= 3 (5-fold named from 5), "
             "clock >= 100 or insufficient material after captures/minor under-promotions, and otherwise leaves the result alone (path-wise over "
             "move kind x colour with the position-level calls abstracted); that the exact re-count walks back at least as far as the clock, along "
-            "prev links, counting only exactly equal positions with equal side to move; mate/stalemate adjudication per colour. Not decided: the "
-            "pop-count arithmetic of HasInsufficientMaterial and concrete histories.",
+            "prev links, counting only exactly equal positions with equal side to move; mate/stalemate adjudication per colour. Not decided: concrete histories.",
             "DESIGN.md §3 C05", "abstract interpretation of PushMove/updateNoProgress/AdjudicateNoLegalMoves per move kind and colour; induction-variable and guard analysis of the re-count loop"),
     "C08": ("other",
             "Symbolic composition: for each move kind and colour, PopMove interpreted on the abstract state left by every successful path of "
@@ -207,6 +206,27 @@ CLAIMED.update({
             "their own position's key. Mirror symmetry of the evaluations and legality of the hand-written SARGON replies are not decided.",
             "DESIGN.md §3 C20", "abstract interpretation for non-zero divisors, value-set enumeration of piece arguments, subset-provenance of move lists"),
 })
+
+# Clauses added after the first build (rules added because a seeded change was missed, or re-decided
+# from a neighbouring property); appended to the level text.
+ADDENDA = {
+    "C01": " Also decided here (re-decided from C02/C06 because the generator and the legality filter rest on them): the castling-rights table CastlingRightsLost over all (From,To) classes, and the attack queries behind IsChecked/IsAttacked/IsAttackedBy/IsCheckMate.",
+    "C03": " The window clause reads, as corrected after defect F19: the child's bounds are negations of the parent's bounds translated by the inverse of the mate-distance increment, decided as the identity Negate(IncrementMateDistance(bound handed down)) = parent's bound on every abstract score region (R03-window). Also decided: the move loop is left early only on alpha >= beta or cancellation; no node returns on a cut-off before a move was tried or the mate/stalemate verdict produced; the score algebra of C09 including DecrementMateDistance (re-decided as R03-scores); MoveList.Next is empty-exact.",
+    "C04": " Also decided: every call of a halting Engine method in the command loop is preceded by the deactivation helper (a superseded search never gets a bestmove of its own; R16-supersede re-decided as R04-single); a go always halts what the engine still has registered before it launches.",
+    "C05": " Also decided: the shape of HasInsufficientMaterial (piece sets of both colours, case split 2/3/4 and thresholds, the bishops' square colours told by a colour-complex mask - R05-dead, which exposed defect F18); that a forked board carries clock, counters and shared past (R05-fork); that the per-hash gate of the re-count is sound (C07's delta rule re-decided as R05-hashgate).",
+    "C06": " IsCheckMate: 'not mate' is never decided for a side in check without consulting the legal moves.",
+    "C09": " Also decided: DecrementMateDistance and IncrementMateDistance are mutually inverse (R09-decr).",
+    "C12": " Also decided: the mate/stalemate verdict (which writes the board's result) is produced only on paths where no move was pushed, so a halted search hands the game result back untouched.",
+    "C13": " Also decided: the child window is the exact pre-image of the parent's window under Negate(IncrementMateDistance(.)) on every abstract score region (R13-frame; defect F19), and the negamax discipline of C03 including 'the move loop is left early only on alpha >= beta'.",
+    "C15": " Anchors are role-based (the function started by the launcher, the handle's fields by type and use); the stop tests are recognised in the controller or in a bool helper it consults.",
+    "C16": " Also decided (R16-supersede): a command that halts the engine's search on the way to something else clears the active flag first; goroutines started by the command loop share only variables that are no longer assigned.",
+    "C18": " Also decided: Engine.Reset replaces board, table and noise generator on every path (a reset engine does not continue a consumed random stream); the stateful SARGON evaluator is re-initialised on every path of its Reset without reading old state; map iteration in search code is order-insensitive by shape.",
+    "C20": " Also decided: every narrowing of the plausible-move list after the initial filter is guarded by the castle-ranked flag; the branch-limit cut is made before Selection (helper or inline).",
+}
+for _pid, _t in ADDENDA.items():
+    if _pid in CLAIMED:
+        _c = CLAIMED[_pid]
+        CLAIMED[_pid] = (_c[0], _c[1] + _t, _c[2], _c[3])
 
 NOT_APPLICABLE = {
     "C11": "Transparency of the transposition table is a numeric equality between two complete searches over all positions x depths x table sizes x search sequences; no sound static abstraction in reach bounds it. Its shape-visible clauses are decided under C12 (no store after cancellation, exact bound only after a full loop), C04 (root exits) and C17 (slot discipline).",
